@@ -67,6 +67,7 @@ class Rt:
         self.types = {}
         self.xtasks = []
         self.keepalive = []
+        self.selfraised = set()   # instances whose body raised CancelledError on its own account
         self.dup_names = bool(sc.get('dup_names'))
         self.blocked = {}        # external task index -> (hang record kind, fields) while it is blocked in a bus call
         self.xid = {}            # asyncio task -> external task index
@@ -188,7 +189,8 @@ def errkind(err):
     if isinstance(err, TimeoutError):
         return 'timeout'
     if isinstance(err, asyncio.CancelledError):
-        return 'cancelled'
+        # bubus' own cancellation errors carry a message; a bare CancelledError is one a handler let escape by itself
+        return 'cancelled' if str(err) else 'CancelledError-raised-by-handler'
     return type(err).__name__
 
 
@@ -500,7 +502,10 @@ def traced_event_result_update(self, handler, eventbus=None, **kwargs):
         i = RT.last_inst.get((b, e, k))
         what = 'result' if 'result' in kwargs else 'error'
         retexc = 'result' in kwargs and isinstance(kwargs['result'], BaseException)
-        RT.rec('resFinish', b=b, e=e, h=k, i=i, what=what, status=r.status, err=errkind(r.error), retexc=retexc)
+        ek = errkind(r.error)
+        if ek == 'cancelled' and i in RT.selfraised and r.error is not None and not str(r.error):
+            ek = 'CancelledError-raised-by-handler'      # (bubus' own cancellation errors carry a message)
+        RT.rec('resFinish', b=b, e=e, h=k, i=i, what=what, status=r.status, err=ek, retexc=retexc)
     elif kwargs.get('status') == 'started':
         i = RT.ninst
         RT.ninst += 1
@@ -599,6 +604,14 @@ async def run_prog(i, bi, event, prog, sync):
                     RT.buses[ins[2]].dispatch(ev)
                 except Exception:
                     pass
+        elif op == 'redispatch_parent':
+            # the handler dispatches the parent of the event it is handling (an ancestor becomes a child of its own descendant)
+            par = RT.evobj.get(RT.eid.get(event.event_parent_id)) if event.event_parent_id else None
+            if par is not None:
+                try:
+                    RT.buses[ins[1]].dispatch(par)
+                except Exception:
+                    pass
         elif op == 'dispatch_with_parent':
             par = event if ins[4] == 'self' else (RT.evobj.get(ins[4]) if ins[4] is not None else None)
             ev = mk_event(ins[2], parent=par)
@@ -630,6 +643,13 @@ async def run_prog(i, bi, event, prog, sync):
             except Exception as ex:
                 got = type(ex).__name__
             RT.rec('readbus', i=i, got=got, want=bi)
+        elif op == 'raise_cancelled':
+            # the handler awaits a helper task that has been cancelled: a CancelledError escapes the handler although nobody
+            # cancelled the handler itself
+            helper = asyncio.ensure_future(asyncio.sleep(3600))
+            helper.cancel()
+            RT.selfraised.add(i)
+            await helper
         elif op == 'raise':
             # the ways application code raises: plainly, chained (`from`), or while handling another exception
             if i % 3 == 1:
@@ -734,6 +754,10 @@ def make_handler(bi, k, h):
             RT.rec('hEnd', i=i, out='ret')
             return v
         except asyncio.CancelledError:
+            if i in RT.selfraised:
+                # nobody cancelled this handler: it let the CancelledError of a task it awaited escape - a raise like any other
+                RT.rec('hEnd', i=i, out='raise')
+                raise
             RT.rec('hCancel', i=i)
             try:
                 if h.get('cleanup'):
